@@ -23,11 +23,11 @@ PROPERTY = "C11"
 LEVEL = "exploration"
 RULE = (
     "hdf: member subsets(7) x bins{1,2,3} x patches{2,3} x auto/cross x closed x contents{dense fingerprint, "
-    "sparse, all-zero, zero-rr, negative/fractional}; yaml: method x closed x unit(8) x scales{single, list of 1, "
+    "sparse, all-zero, zero-rr, negative/fractional, cancelling, whole numbers with entries >= 2^31 / 2^53 or +-inf}; yaml: method x closed x unit(8) x scales{single, list of 1, "
     "list of 3} x rweight/resolution x cosmology names(3) x (zmin,zmax,num_bins) incl. non-representable decimals, "
     "custom edges, max_workers; text: classes{CorrData,RedshiftData,HistData} x bins{1,2,3} x samples{2,3} x "
     "value alphabet {0,+-1e-12,+-0.123456789,+-12345.678,+-1e9,nan,+-inf} placed in every position; metadata: "
-    "special floats; cache: reopen. Non-trivial: anything but the plain dense/linear/default case. Oracle: "
+    "special floats; cache: reopen; prefix: every ordered pair of two products written side by side under the path prefixes {prod, nz_0.1, nz_0.2, run.v2.final, nz_0, a.b}, each must read back as itself. Non-trivial: anything but the plain dense/linear/default case. Oracle: "
     "own snapshot comparison plus the library's ==, identical sample(), bit-identical edges."
 )
 ASSUMPTIONS = [
@@ -45,7 +45,7 @@ def cases(tier, seed):
     out = []
     for members, B, N, auto, closed, content in itertools.product(
             C.MEMBER_SUBSETS, (1, 2, 3), (2, 3), (False, True), ("right", "left"),
-            ("fp", "sparse", "zero", "zero-rr", "neg", "cancel")):
+            ("fp", "sparse", "zero", "zero-rr", "neg", "cancel", "bigint", "infint")):
         if tier != "thorough" and closed == "left" and content not in ("fp", "zero"):
             continue
         out.append(dict(part="hdf", members=list(members), B=B, N=N, auto=auto, closed=closed,
@@ -80,6 +80,12 @@ def cases(tier, seed):
                 for where in ("data", "samples"):
                     out.append(dict(part="text", cls=cls, B=B, M=M, closed=closed,
                                     special=dict(value=val, pos=pos, where=where)))
+    # two products written next to each other under different documented path prefixes ([prefix].{dat,smp,cov})
+    names = ("prod", "nz_0.1", "nz_0.2", "run.v2.final", "nz_0", "a.b")
+    for p1, p2 in itertools.permutations(names, 2):
+        out.append(dict(part="prefix", cls="CorrData", first=p1, second=p2))
+    out.append(dict(part="prefix", cls="RedshiftData", first="nz_0.1", second="nz_0.2"))
+    out.append(dict(part="prefix", cls="HistData", first="nz_0.1", second="nz_0.2"))
     specials = [0.0, 1e-300, 5e-324, math.pi, 0.1 + 0.2, 1e22, 1.7976931348623157e308, 2 * math.pi - 1e-16,
                 1 / 3, 123456789.123456789]
     for a, b, c_ in itertools.product(specials, repeat=3):
@@ -107,7 +113,7 @@ def run_hdf(case):
     content = case["content"]
     cf = c04.make_cf(case["B"], case["N"], case["auto"], case["members"],
                      content if content in ("fp", "sparse", "zero-rr") else "fp", "uneq", case["closed"])
-    if content in ("zero", "neg", "cancel"):
+    if content in ("zero", "neg", "cancel", "bigint", "infint"):
         kw = {}
         for m, nc in cf.to_dict().items():
             cnt = nc.counts.counts * (0.0 if content == "zero" else -0.37)
@@ -115,6 +121,11 @@ def run_hdf(case):
                 cnt = nc.counts.counts.copy()
                 cnt[:, 0, -1] = ([3.0, -3.0, 0.0] if case["B"] == 3 else [2.5, -2.5] if case["B"] == 2 else [0.0])
                 cnt[:, -1, -1] = ([-1.0, -1.0, 2.0] if case["B"] == 3 else [-4.0, 4.0] if case["B"] == 2 else [7.0])
+            if content in ("bigint", "infint"):
+                # whole-number counts (unweighted catalogs) with entries beyond 2^31 / 2^53, or infinite entries
+                cnt = np.rint(nc.counts.counts)
+                big = [3.0e9, 2.0**31, 2.0**53 + 2.0] if content == "bigint" else [np.inf, -np.inf, 2.0**31 - 1.0]
+                cnt[0, 0, -1], cnt[-1, -1, -1], cnt[0, 0, 0] = big
             kw[m] = C.make_norm(case["B"], case["N"], nc.auto, closed=case["closed"], counts=cnt,
                                 sw1=nc.sum_weights.sum_weights1, sw2=nc.sum_weights.sum_weights2)
         cf = yaw.CorrFunc(**kw)
@@ -191,6 +202,34 @@ def kept_decimals(x):
     s = f"{x: .10f}"
     head = len(s.split(".")[0])
     return max(0, 10 - head - 1)
+
+
+def run_prefix(case):
+    import yaw
+
+    cls = getattr(yaw, case["cls"])
+    binning = C.make_binning(2, "uneq", "right")
+    objs = {}
+    for name, salt in ((case["first"], 0.0), (case["second"], 4.0)):
+        data = np.array([0.5, 0.75]) + salt
+        samples = np.array([[0.625, 0.875], [0.375, 0.5]]) + salt
+        objs[name] = cls(binning, data, samples)
+    d = runner.fresh_dir("c11p")
+    v = []
+    try:
+        for name, obj in objs.items():
+            obj.to_files(os.path.join(d, name))
+        for name, obj in objs.items():
+            back = cls.from_files(os.path.join(d, name))
+            if not (np.allclose(back.data, obj.data, atol=1e-9) and np.allclose(back.samples, obj.samples, atol=1e-9)):
+                v.append(viol("C11/text/prefix-collision",
+                              f"{case['cls']} written to '{name}' reads back as another product after a second product "
+                              f"was written to '{[n for n in objs if n != name][0]}' in the same directory "
+                              f"(files present: {sorted(os.listdir(d))})"))
+                break
+    except Exception as e:
+        v.append(viol(f"C11/text/prefix-exception:{type(e).__name__}", f"{case}: {yawx.exc_name(e)}"))
+    return v, True
 
 
 def run_text(case):
@@ -300,7 +339,7 @@ def run_cache(case):
 
 
 def run_case(case):
-    fn = dict(hdf=run_hdf, yaml=run_yaml, text=run_text, meta=run_meta, cache=run_cache)[case["part"]]
+    fn = dict(hdf=run_hdf, yaml=run_yaml, text=run_text, meta=run_meta, cache=run_cache, prefix=run_prefix)[case["part"]]
     viols, nontrivial = fn(case)
     res = dict(nontrivial=bool(nontrivial), key=case)
     if viols:
